@@ -60,7 +60,10 @@ def eval_spec(arg):
         zi = tz.tzical(io.StringIO(text)).get()
     except Exception as e:
         return Res(viols=[{'kind': 'valid-definition-rejected', 'string': s, 'variant': var, 'error': repr(e)[:150]}])
-    zs = tz.tzstr(s)
+    if p.stdoff % 60 or p.dstoff % 60:
+        zs = pm.tzrange_for(p)            # a TZ string cannot state seconds; the equivalent tzrange can
+    else:
+        zs = tz.tzstr(s)
     UTC = tz.UTC
     n = 0
     walls = []
@@ -213,6 +216,12 @@ def run(ctx):
     k = ctx.pick(2, 4)
     shs = specs(k)
     cs = [(sh, vi) for sh in shs for vi in range(len(VARIANTS))]
+    # offsets with seconds (six-digit TZOFFSETFROM/TO), both signs, also across zero
+    for offs in ((-5850, 3600), (2670, 3600), (-59, 1800), (-16202, 3600), (45296, 1799)):
+        for extra in ({}, {'south': True}, {'srule': ('M', 3, 5, 0)}):
+            sh = dict(extra)
+            sh['offsets'] = offs
+            cs += [(sh, vi) for vi in (0, 1, 2, 5)]
     ctx.explore('specs', cs, 'eval_spec', chunk=8)
     misc = [('two-zones',), ('single',), ('empty-file',)] + malformed_menu()
     ctx.explore('tzid-and-malformed', misc, 'eval_misc', serial=True)
